@@ -273,6 +273,13 @@ fn conditions() -> Vec<(&'static str, Expr, CondWant)> {
         ("none == none and true", Expr::and(Expr::eq(none(), none()), Expr::value(true)), Is(false)),
         ("none != none or false", Expr::or(Expr::neq(none(), none()), Expr::value(false)), Is(true)),
         ("(none == none) == false", Expr::eq(Expr::eq(none(), none()), Expr::value(false)), Is(true)),
+        // both sides under the same conversion: none on either side still equals nothing
+        ("uppercase(none) == uppercase(none)", Expr::eq(Expr::uppercase(none()), Expr::uppercase(none())), Is(false)),
+        ("lowercase(vn) != lowercase(vn)", Expr::neq(Expr::lowercase(vn()), Expr::lowercase(vn())), Is(true)),
+        ("uppercase(none) == uppercase(i3)", Expr::eq(Expr::uppercase(none()), Expr::uppercase(Expr::value(3))), Is(false)),
+        ("lowercase(vm.nokey) == lowercase(\"x\")", Expr::eq(Expr::lowercase(miss()), Expr::lowercase(Expr::value("x".to_string()))), Is(false)),
+        ("int(none) == int(none)", Expr::eq(Expr::int(none()), Expr::int(none())), Is(false)),
+        ("trim(vn) != trim(\"x\")", Expr::neq(Expr::trim(vn()), Expr::trim(Expr::value("x".to_string()))), Is(true)),
     ]
 }
 
@@ -379,6 +386,59 @@ fn none_input_exprs() -> Vec<Expr> {
     ]
 }
 
+/// a serialized struct whose optional / unit fields are none: the fields exist and hold none
+#[derive(serde::Serialize)]
+struct Person {
+    name: &'static str,
+    age: Option<i64>,
+    unit: (),
+    nested: Inner,
+}
+
+#[derive(serde::Serialize)]
+struct Inner {
+    score: Option<f64>,
+}
+
+fn struct_input_exprs() -> Vec<Expr> {
+    let age = || Expr::reff("age");
+    let score = || Expr::index(Expr::reff("nested"), Index::Map("score".into()));
+    vec![
+        age(),
+        Expr::add(age(), Expr::value(1)),
+        Expr::neg(age()),
+        Expr::float(age()),
+        Expr::gte(age(), Expr::value(21)),
+        Expr::eq(age(), Expr::value(21)),
+        Expr::neq(age(), Expr::value(21)),
+        mk1("is_none", age()),
+        Expr::reff("unit"),
+        Expr::add(Expr::reff("unit"), Expr::value(1)),
+        score(),
+        Expr::mult(score(), Expr::Value(Value::Float(2.0))),
+        Expr::contains(Expr::reff("facts"), Expr::value("age".to_string())),
+        Expr::iif(mk1("is_none", age()), Expr::reff("name"), Expr::value("known".to_string())),
+    ]
+}
+
+fn check_struct_input(i: usize) -> Verdict {
+    let e = struct_input_exprs().swap_remove(i);
+    let person = Person { name: "Ann", age: None, unit: (), nested: Inner { score: None } };
+    let as_value = pool::map(&[("name", Value::String("Ann".into())), ("age", Value::None), ("unit", Value::None), ("nested", pool::map(&[("score", Value::None)]))]);
+    let want = me::eval_plain(&e, &as_value);
+    let spec = crate::probe::SetSpec { rules: vec![("r".into(), e.clone())], fns: Default::default(), symbols: Default::default(), suspend: 0 };
+    let built = crate::probe::build(&spec, false);
+    let r = catch(|| block_on(built.ruleset.evaluate(&person)).and_then(|mut o| o.pop().expect("one outcome").value))
+        .map_err(|p| Issue::new("none-field:panic", format!("RuleSet::evaluate(&struct) panicked on {}: {p}", show_expr(&e))))?;
+    match me::compare(&r, &want) {
+        None => Ok(()),
+        Some(d) => Err(Issue::new(
+            format!("none-field:{}", root_sig(&e)),
+            format!("{} on a serialized struct whose fields age / unit / nested.score are none: implementation {}, reference {} ({d:?})", show_expr(&e), me::show_actual(&r), me::show_model(&want)),
+        )),
+    }
+}
+
 fn check_none_input(i: usize) -> Verdict {
     let e = none_input_exprs().swap_remove(i);
     let want = me::eval_plain(&e, &Value::None);
@@ -420,7 +480,7 @@ pub fn run(ctx: &Ctx) {
     ctx.assume("table in harness/src/props/c04.rs transcribes the property statement");
 
     super::regressions::run(ctx, "C04", |j| {
-        if j.get("none_input").is_some() {
+        if j.get("none_input").is_some() || j.get("struct_input").is_some() {
             return replay(j);
         }
         if let Some(a) = j.get("none_condition").and_then(|a| a.as_array()) {
@@ -518,6 +578,20 @@ pub fn run(ctx: &Ctx) {
         "noneinput",
     );
 
+    let nsi = struct_input_exprs().len() as u64;
+    ctx.enumerate(
+        "none-fields-of-a-struct",
+        nsi,
+        true,
+        |i, acc| {
+            acc.cell("none-field", true);
+            acc.sample("none-field", || show_expr(&struct_input_exprs()[i as usize]));
+            check_struct_input(i as usize)
+        },
+        |i| serde_json::json!({"struct_input": i, "text": show_expr(&struct_input_exprs()[i as usize])}),
+        "structinput",
+    );
+
     // depth 2: every outer kind over every inner cell of a small pool containing None, in each operand position
     // (e.g. !(none < x) must be true: the inner None rule composes with the outer operator)
     let c2 = Cells2::new(vec![
@@ -581,6 +655,9 @@ pub fn run(ctx: &Ctx) {
 pub fn replay(j: &serde_json::Value) -> Option<Verdict> {
     if let Some(i) = j.get("none_input").and_then(|x| x.as_u64()) {
         return ((i as usize) < none_input_exprs().len()).then(|| check_none_input(i as usize));
+    }
+    if let Some(i) = j.get("struct_input").and_then(|x| x.as_u64()) {
+        return ((i as usize) < struct_input_exprs().len()).then(|| check_struct_input(i as usize));
     }
     if let Some(a) = j.get("none_condition").and_then(|a| a.as_array()) {
         let (ci, fi) = (a.first()?.as_u64()? as usize, a.get(1)?.as_u64()? as usize);
